@@ -18,12 +18,18 @@ outputs of the real analyzers / regex engine as the `Ctx` parameters.
 
 ```
 theorem mechanism_eq_spec (hx : expansionsComplete c segs q = true) (hs : s ∈ segs) (o : Nat) :
-    o ∈ searchSeg c segs (plan c true q) root s ↔ Spec.wanted c q root s o = true
+    o ∈ searchSegQ c segs q root s ↔ Spec.wanted c q root s o = true
 ```
 
 What holds is `mechanism_characterisation` (exactly which wanted documents are lost) and
-`mechanism_eq_spec_partial` (under the decidable hypothesis `coveredByScoredTerms`, whose negation
-is the signature of the known finding `candidates.unscored-required-doc`).
+`mechanism_eq_spec_partial` under three decidable hypotheses, each the negation of the signature
+predicate of one known finding:
+
+* `coveredByScoredTerms`  — `candidates.unscored-required-doc` (witness `mechanism_ne_spec_witness`)
+* `expansionsComplete` (implied by `belowCaps` + `rxPrefixOk`, `expansionsComplete_of_caps`)
+                          — `regex.literal-prefix` (witness `regex_prefix_witness`)
+* `Q.rootChain` (function_score / script_score clauses only as a chain at the root)
+                          — `score-drop.nested` (witness `nested_drop_witness`)
 -/
 namespace SL.Query
 
@@ -63,14 +69,21 @@ theorem expansionsComplete_iff {c : Ctx} {segs : List Seg} {q : Q} :
 
 /-- `accept` = "wanted by the documented semantics" on every ordinal of the segment -/
 theorem accept_eq_wanted {c : Ctx} {segs : List Seg} {q : Q} (root : Option Flt)
+    (hr : q.rootChain = true)
     (hx : expansionsComplete c segs q = true) {s : Seg} (hs : s ∈ segs) {o : Nat} {d : ADoc}
     (hd : s.docs[o]? = some d) :
-    accept c segs (plan c true q) root s o = Spec.wanted c q root s o := by
+    accept c segs (plan c true q) (scoreTree c true q) root s o = Spec.wanted c q root s o := by
   unfold accept Spec.wanted
-  rw [hd, evalM_plan c hs hd q true (expansionsComplete_iff.mp hx)]
+  simp only [hd]
+  rw [← rootChain_accept c hs hd q hr (expansionsComplete_iff.mp hx)]
   cases root with
-  | none => rfl
-  | some f => simp [docPasses_eq hd, Flt.passesAll]
+  | none =>
+    cases s.deleted.contains o <;> cases evalM c segs s o (plan c true q) <;>
+      cases dropped c segs s o d (scoreTree c true q) <;> rfl
+  | some f =>
+    simp only [docPasses_eq hd, Flt.passesAll, Bool.and_true]
+    cases s.deleted.contains o <;> cases evalM c segs s o (plan c true q) <;>
+      cases dropped c segs s o d (scoreTree c true q) <;> cases Flt.passes d f <;> rfl
 
 /-! ## the mechanism, characterised exactly -/
 
@@ -80,12 +93,13 @@ the document is live, satisfies the documented semantics and the root filter, **
 request has no scored term at all (full scan) or the document is listed under one of its scored
 terms. -/
 theorem mechanism_characterisation (c : Ctx) (segs : List Seg) (q : Q) (root : Option Flt)
+    (hr : q.rootChain = true)
     (hx : expansionsComplete c segs q = true) {s : Seg} (hs : s ∈ segs) (o : Nat) :
-    o ∈ searchSeg c segs (plan c true q) root s ↔
+    o ∈ searchSegQ c segs q root s ↔
       (Spec.wanted c q root s o = true ∧
         (qualified c segs (plan c true q) = [] ∨
           hasQualified (qualified c segs (plan c true q)) s o = true)) := by
-  unfold searchSeg
+  unfold searchSegQ searchSeg
   rw [List.mem_filter]
   cases hd : s.docs[o]? with
   | none =>
@@ -100,7 +114,7 @@ theorem mechanism_characterisation (c : Ctx) (segs : List Seg) (q : Q) (root : O
       rw [hd] at hw
       cases hw
   | some d =>
-    rw [accept_eq_wanted root hx hs hd, mem_candidates]
+    rw [accept_eq_wanted root hr hx hs hd, mem_candidates]
     have hlt : o < s.docs.length := (List.getElem?_eq_some_iff.mp hd).1
     constructor
     · rintro ⟨hc, hw⟩
@@ -141,11 +155,12 @@ theorem coveredByScoredTerms_iff {c : Ctx} {segs : List Seg} {q : Q} {root : Opt
 /-- **Refinement, partial.**  Under `coveredByScoredTerms` (every wanted document contains a scored
 term, or the request has none) the returned ordinals of every segment are exactly the wanted ones. -/
 theorem mechanism_eq_spec_partial (c : Ctx) (segs : List Seg) (q : Q) (root : Option Flt)
+    (hr : q.rootChain = true)
     (hx : expansionsComplete c segs q = true) (hcov : coveredByScoredTerms c segs q root = true)
     {s : Seg} (hs : s ∈ segs) (o : Nat) :
-    o ∈ searchSeg c segs (plan c true q) root s ↔
+    o ∈ searchSegQ c segs q root s ↔
       o ∈ (List.range s.docs.length).filter (Spec.wanted c q root s) := by
-  rw [mechanism_characterisation c segs q root hx hs o, List.mem_filter, List.mem_range]
+  rw [mechanism_characterisation c segs q root hr hx hs o, List.mem_filter, List.mem_range]
   constructor
   · rintro ⟨hw, _⟩
     refine ⟨?_, hw⟩
@@ -161,6 +176,7 @@ theorem mechanism_eq_spec_partial (c : Ctx) (segs : List Seg) (q : Q) (root : Op
 
 /-- the same, for the id list of the response -/
 theorem search_ids_partial (c : Ctx) (segs : List Seg) (q : Q) (root : Option Flt)
+    (hr : q.rootChain = true)
     (hx : expansionsComplete c segs q = true) (hcov : coveredByScoredTerms c segs q root = true)
     (id : Str) :
     id ∈ search c segs q root ↔
@@ -169,19 +185,20 @@ theorem search_ids_partial (c : Ctx) (segs : List Seg) (q : Q) (root : Option Fl
   simp only [List.mem_flatMap, List.mem_filterMap, Option.map_eq_some_iff]
   constructor
   · rintro ⟨s, hs, o, ho, d, hd, hid⟩
-    have := (mechanism_eq_spec_partial c segs q root hx hcov hs o).mp ho
+    have := (mechanism_eq_spec_partial c segs q root hr hx hcov hs o).mp ho
     exact ⟨s, hs, o, d, hd, hid, (List.mem_filter.mp this).2⟩
   · rintro ⟨s, hs, o, d, hd, hid, hw⟩
     refine ⟨s, hs, o, ?_, d, hd, hid⟩
-    apply (mechanism_eq_spec_partial c segs q root hx hcov hs o).mpr
+    apply (mechanism_eq_spec_partial c segs q root hr hx hcov hs o).mpr
     exact List.mem_filter.mpr ⟨List.mem_range.mpr (List.getElem?_eq_some_iff.mp hd).1, hw⟩
 
 /-- nothing is ever returned that the documented semantics does not want (no hypothesis on the
 scored terms): soundness holds unconditionally, only completeness is lost -/
 theorem mechanism_sound (c : Ctx) (segs : List Seg) (q : Q) (root : Option Flt)
+    (hr : q.rootChain = true)
     (hx : expansionsComplete c segs q = true) {s : Seg} (hs : s ∈ segs) (o : Nat)
-    (h : o ∈ searchSeg c segs (plan c true q) root s) : Spec.wanted c q root s o = true :=
-  ((mechanism_characterisation c segs q root hx hs o).mp h).1
+    (h : o ∈ searchSegQ c segs q root s) : Spec.wanted c q root s o = true :=
+  ((mechanism_characterisation c segs q root hr hx hs o).mp h).1
 
 /-! ## sufficient conditions for the two hypotheses -/
 
@@ -203,6 +220,7 @@ theorem expansionsComplete_of_caps (c : Ctx) (segs : List Seg) (q : Q) (hfz : c.
 required should-path ends in a scored term/query-string/multi-match clause), every wanted document
 is covered, on every corpus. -/
 theorem forces_covered (c : Ctx) (segs : List Seg) (q : Q) (root : Option Flt)
+    (hr : q.rootChain = true)
     (hx : expansionsComplete c segs q = true) (hf : forces true q = true) :
     coveredByScoredTerms c segs q root = true := by
   rw [coveredByScoredTerms_iff]
@@ -215,16 +233,19 @@ theorem forces_covered (c : Ctx) (segs : List Seg) (q : Q) (root : Option Flt)
     rw [hd] at hw
     simp only [Bool.and_eq_true] at hw
     have he : evalM c segs s o (plan c true q) = true := by
-      rw [evalM_plan c hs hd q true (expansionsComplete_iff.mp hx)]; exact hw.1.2
+      have := rootChain_accept c hs hd q hr (expansionsComplete_iff.mp hx)
+      rw [hw.1.2, Bool.and_eq_true] at this
+      exact this.1
     exact hasQualified_of_scoredHit c segs s o (forces_hit c segs s o q true hf he)
 
 /-- refinement for forcing queries: no hypothesis about the corpus is left -/
 theorem mechanism_eq_spec_of_forces (c : Ctx) (segs : List Seg) (q : Q) (root : Option Flt)
+    (hr : q.rootChain = true)
     (hx : expansionsComplete c segs q = true) (hf : forces true q = true)
     {s : Seg} (hs : s ∈ segs) (o : Nat) :
-    o ∈ searchSeg c segs (plan c true q) root s ↔
+    o ∈ searchSegQ c segs q root s ↔
       o ∈ (List.range s.docs.length).filter (Spec.wanted c q root s) :=
-  mechanism_eq_spec_partial c segs q root hx (forces_covered c segs q root hx hf) hs o
+  mechanism_eq_spec_partial c segs q root hr hx (forces_covered c segs q root hr hx hf) hs o
 
 /-- requests without any scored term group are answered by a full scan: always covered -/
 theorem unscored_covered (c : Ctx) (segs : List Seg) (q : Q) (root : Option Flt)
@@ -273,7 +294,7 @@ theorem phrase_positions_sorted (l : List Nat) : (sortN l).Pairwise (· < ·) :=
 `term(f, w)` is satisfied by `d` … -/
 theorem indexed_word_matches (c : Ctx) (d : ADoc) (f w : Str) (hk : c.kind f = .text)
     (h : ∃ t ∈ c.searchAn f w, t.text ∈ docTerms d f) :
-    Spec.matchesQ c d true (.term f w) = true := by
+    Spec.matchesQ c true d true (.term f w) = true := by
   obtain ⟨t, ht, hmem⟩ := h
   simp only [Spec.matchesQ, Spec.group, List.any_cons, List.any_nil, Bool.or_false]
   rw [List.any_eq_true]
@@ -288,14 +309,14 @@ theorem indexed_word_found (c : Ctx) (segs : List Seg) (f w : Str) (hk : c.kind 
     (hfz : c.fuzzy = none) {s : Seg} (hs : s ∈ segs) {o : Nat} {d : ADoc}
     (hd : s.docs[o]? = some d) (hlive : s.deleted.contains o = false)
     (h : ∃ t ∈ c.searchAn f w, t.text ∈ docTerms d f) :
-    o ∈ searchSeg c segs (plan c true (.term f w)) none s := by
+    o ∈ searchSegQ c segs (.term f w) none s := by
   have hx : expansionsComplete c segs (.term f w) = true := by
     rw [expansionsComplete_iff]
     intro g hg
     simp only [plan, Matcher.groups, List.mem_singleton] at hg
     subst hg
     exact exact_groupOK c segs _ rfl (Or.inr hfz)
-  rw [mechanism_characterisation c segs _ none hx hs o]
+  rw [mechanism_characterisation c segs _ none rfl hx hs o]
   constructor
   · unfold Spec.wanted
     simp only [hd, hlive, indexed_word_matches c d f w hk h]
@@ -372,6 +393,27 @@ theorem regex_prefix_witness :
     (plan wCtxRx true (.regex [1] [7, 8, 63] 100)).groups.all (rxPrefixOk wCtxRx [⟨[wDocT 20 [[7]], wDocT 21 [[7, 8]]], []⟩]) = false := by
   decide
 
+/-- documents with an i64 field `[2]` (think `year`) -/
+def wDocY (id : Nat) (words : List Nat) (y : Int) : ADoc := { wDoc id words with i64 := [([2], [y])] }
+
+def wSegsY : List Seg := [⟨[wDocY 30 [7] 1, wDocY 31 [7] 2, wDocY 32 [8] 2], []⟩]
+
+/-- `function_score { query: match_all, functions: [weight 1 if year=2, weight 0], replace, min_score 1 }` -/
+def wFs : Q := .functionScore .matchAll [⟨1, some (.i64Range [2] 2 2)⟩, ⟨0, none⟩] .sum none (some 1)
+
+/-- **Negative witness 3** (`score-drop.nested`): as a *must* clause next to a scored term the
+`min_score` is ignored (document 30 is returned although the clause rejects it); as an *optional
+should* clause next to `match_all` it drops documents (30 is lost although the clause is
+optional).  At the root (`rootChain`) the clause behaves as documented. -/
+theorem nested_drop_witness :
+    searchOrds wCtx wSegsY wFs none = [[1, 2]] ∧ Spec.searchOrds wCtx wSegsY wFs none = [[1, 2]] ∧
+    searchOrds wCtx wSegsY (.bool [wFs, .term [1] [7]] [] [] [] none) none = [[0, 1]] ∧
+    Spec.searchOrds wCtx wSegsY (.bool [wFs, .term [1] [7]] [] [] [] none) none = [[1]] ∧
+    searchOrds wCtx wSegsY (.bool [.matchAll] [wFs] [] [] none) none = [[1, 2]] ∧
+    Spec.searchOrds wCtx wSegsY (.bool [.matchAll] [wFs] [] [] none) none = [[0, 1, 2]] ∧
+    Q.rootChain (.bool [.matchAll] [wFs] [] [] none) = false ∧ Q.rootChain wFs = true := by
+  decide
+
 /-- non-vacuity of `forces_covered` / `expansionsComplete_of_caps`: a forcing query with a prefix
 clause below its cap (`bool { should: [prefix body:8*, term body:7] }`) -/
 example :
@@ -389,7 +431,7 @@ example : phMatch [[1, 4], [2], [3]] 0 = true ∧ phMatch [[1], [4], [6]] 2 = fa
   decide
 
 /-- non-vacuity of `indexed_word_found` -/
-example : 1 ∈ searchSeg wCtx wSegs (plan wCtx true (.term [1] [8])) none ⟨[wDoc 12 [9, 7], wDoc 13 [8]], []⟩ := by
+example : 1 ∈ searchSegQ wCtx wSegs (.term [1] [8]) none ⟨[wDoc 12 [9, 7], wDoc 13 [8]], []⟩ := by
   decide
 
 end Witness
